@@ -250,10 +250,40 @@ func GenFlow(t *rapid.T, name string, o GenOpts) *rt.Spec {
 	}
 	s.Units = unit
 	// Results: everything nobody consumed, plus a few consumed types.
+	// (when the targets are spread over two cff.Results directives, one of
+	// them preferably holds only types that a task consumes as well: if a
+	// generator loses that directive the output still compiles)
+	resSplit := prob(t, "ressplit", 0.3)
+	pExtra := 0.15
+	if resSplit {
+		pExtra = 0.5
+	}
+	var alsoConsumed, onlyResult []rt.TypeRef
 	for _, a := range avail {
-		if !consumed[a.Key()] || prob(t, "extraresult", 0.15) {
-			s.Results = append(s.Results, a)
+		switch {
+		case !consumed[a.Key()]:
+			onlyResult = append(onlyResult, a)
+		case prob(t, "extraresult", pExtra):
+			alsoConsumed = append(alsoConsumed, a)
 		}
+	}
+	if resSplit && len(alsoConsumed) > 0 && len(onlyResult) > 0 {
+		s.Results = append(append(s.Results, alsoConsumed...), onlyResult...)
+		s.ResSplit = len(alsoConsumed)
+	} else {
+		for _, a := range avail {
+			for _, b := range append(append([]rt.TypeRef{}, alsoConsumed...), onlyResult...) {
+				if a.Key() == b.Key() {
+					s.Results = append(s.Results, a)
+				}
+			}
+		}
+		if resSplit && len(s.Results) >= 2 {
+			s.ResSplit = 1 + uniform(t, "ressplitat", len(s.Results)-1)
+		}
+	}
+	if len(s.Params) >= 2 && prob(t, "parsplit", 0.3) {
+		s.ParSplit = 1 + uniform(t, "parsplitat", len(s.Params)-1)
 	}
 	genCommon(t, s, o)
 	return s
